@@ -30,6 +30,7 @@ GNext ==
   \/ T_CbComplete /\ H([a |-> "T_CbComplete"])
   \/ T_StatusUpdate /\ H([a |-> "T_StatusUpdate"])
   \/ T_Sched /\ H([a |-> "T_Sched"])
+  \/ T_Busy /\ H([a |-> "T_Busy"])
   \/ T_SuggestNew /\ H([a |-> "T_SuggestNew", from |-> IF stack = <<>> THEN NoTrial ELSE stack[Len(stack)]])
   \/ T_Add /\ H([a |-> "T_Add"])
   \/ \E t \in Trials : T_SuggestResume(t) /\ H([a |-> "T_SuggestResume", t |-> t])
